@@ -6,15 +6,34 @@ import os
 import sys
 
 folder, user, out = sys.argv[1], sys.argv[2], sys.argv[3]
-state = "no-lock-file"
-p = os.path.join(folder, ".Radicale.lock")
-if os.path.exists(p):
-    with open(p, "r") as f:
-        try:
-            fcntl.flock(f.fileno(), fcntl.LOCK_SH | fcntl.LOCK_NB)
-            state = "not-exclusive"
-            fcntl.flock(f.fileno(), fcntl.LOCK_UN)
-        except OSError:
-            state = "exclusive"
+linger = len(sys.argv) > 4 and sys.argv[4] == "linger"
+
+
+def probe():
+    state = "no-lock-file"
+    p = os.path.join(folder, ".Radicale.lock")
+    if os.path.exists(p):
+        with open(p, "r") as f:
+            try:
+                fcntl.flock(f.fileno(), fcntl.LOCK_SH | fcntl.LOCK_NB)
+                state = "not-exclusive"
+                fcntl.flock(f.fileno(), fcntl.LOCK_UN)
+            except OSError:
+                state = "exclusive"
+    return state
+
+
 with open(out, "a") as g:
-    g.write("%s %s\n" % (state, user))
+    g.write("%s %s\n" % (probe(), user))
+if linger:
+    # a hook that leaves a background job behind (same process group, as `cmd &` in a shell script does): the server ends the
+    # hook's process group before it gives up the lock, so this child must never get to look at the storage again
+    if os.fork() == 0:
+        import time
+        devnull = os.open(os.devnull, os.O_RDWR)
+        for fd in (0, 1, 2):
+            os.dup2(devnull, fd)
+        time.sleep(0.4)
+        with open(out, "a") as g:
+            g.write("late:%s %s\n" % (probe(), user))
+        os._exit(0)
